@@ -313,6 +313,11 @@ Proof.
   unfold cc_grant, np. repeat (break_goal; [rr|]).
   eapply leaves_bind; [apply leaves_true|]. intros oc _. crunch; rr.
 Qed.
+Lemma jwt_bearer_grant_np w n now r : leaves np (jwt_bearer_grant w n now r).
+Proof.
+  unfold jwt_bearer_grant, np. repeat (break_goal; [rr|]).
+  eapply leaves_bind; [apply leaves_true|]. intros oc _. crunch; rr.
+Qed.
 Lemma ciba_grant_np w n now r : leaves np (ciba_grant w n now r).
 Proof.
   unfold ciba_grant, np. repeat (break_goal; [rr|]).
@@ -395,7 +400,7 @@ Proof.
   - apply continue_auth_np.
   - apply push_auth_np.
   - apply cc_grant_np. - apply code_grant_np. - apply refresh_grant_np.
-  - rr. - rr.
+  - rr. - apply jwt_bearer_grant_np.
   - apply ciba_grant_np.
   - apply introspect_np.
   - apply revoke_np.
@@ -434,6 +439,11 @@ Proof.
   rewrite run_seq_bind, get_client_frame. destruct (snd (run_seq (get_client w (cr_id cr)) st)); [|reflexivity].
   destruct (orb _ _); reflexivity.
 Qed.
+Lemma jwt_bearer_client_frame w cr st : fst (run_seq (jwt_bearer_client w cr) st) = st.
+Proof.
+  unfold jwt_bearer_client. rewrite run_seq_bind, authenticated_frame.
+  destruct (snd (run_seq (authenticated w cr) st)); [reflexivity|]. destruct (andb _ _); reflexivity.
+Qed.
 Lemma introspection_info_frame now p st : fst (run_seq (introspection_info now p) st) = st.
 Proof.
   unfold introspection_info. destruct (classify p); cbn; [reflexivity| |].
@@ -448,6 +458,11 @@ Ltac past_auth_k tac :=
     let oc := fresh "oc" in generalize (snd (run_seq (authenticated w cr) st)); intros oc;
     destruct oc as [c|]; [|tac] end.
 Ltac past_auth := past_auth_k ltac:(solve [done]).
+Ltac past_jb_auth :=
+  rewrite !run_seq_bind, !jwt_bearer_client_frame;
+  match goal with |- context [snd (run_seq (jwt_bearer_client ?w ?cr) ?st)] =>
+    let oc := fresh "oc" in generalize (snd (run_seq (jwt_bearer_client w cr) st)); intros oc;
+    destruct oc as [c|]; [|solve [done]] end.
 
 (* ---- the token endpoint and introspection: an internal_error answer means the scripted
         embedder reply failed (the storage never fails under run_seq) ---- *)
@@ -465,6 +480,11 @@ Lemma cc_grant_5xx w n now r st :
   is_internal (snd (run_seq (cc_grant w n now r) st)) = true -> t_hg r = HgFail.
 Proof.
   unfold cc_grant. repeat (break_goal; [solve [done]|]). past_auth. destruct (t_hg r); [| |reflexivity]; crunch0; done.
+Qed.
+Lemma jwt_bearer_grant_5xx w n now r st :
+  is_internal (snd (run_seq (jwt_bearer_grant w n now r) st)) = true -> t_hg r = HgFail.
+Proof.
+  unfold jwt_bearer_grant. repeat (break_goal; [solve [done]|]). past_jb_auth. destruct (t_hg r); [| |reflexivity]; crunch0; done.
 Qed.
 Lemma ciba_grant_5xx w n now r st :
   is_internal (snd (run_seq (ciba_grant w n now r) st)) = true -> t_hg r = HgFail \/ t_ba r = BaFail.
@@ -539,6 +559,12 @@ Lemma cc_grant_frame w n now r st e :
   snd (run_seq (cc_grant w n now r) st) = OErr e -> fst (run_seq (cc_grant w n now r) st) = st.
 Proof.
   unfold cc_grant. repeat (break_goal; [solve [done]|]). past_auth.
+  destruct st as [cl ass gs]. crunch0; done.
+Qed.
+Lemma jwt_bearer_grant_frame w n now r st e :
+  snd (run_seq (jwt_bearer_grant w n now r) st) = OErr e -> fst (run_seq (jwt_bearer_grant w n now r) st) = st.
+Proof.
+  unfold jwt_bearer_grant. repeat (break_goal; [solve [done]|]). past_jb_auth.
   destruct st as [cl ass gs]. crunch0; done.
 Qed.
 Lemma ciba_grant_frame w n now r st e :
@@ -773,6 +799,15 @@ Lemma refresh_grant_sok w n now r : sok (refresh_grant w n now r).
 Proof. unfold refresh_grant. repeat (break_goal; [exact I|]). sv_auth. sv. Qed.
 Lemma cc_grant_sok w n now r : sok (cc_grant w n now r).
 Proof. unfold cc_grant. repeat (break_goal; [exact I|]). sv_auth. sv. Qed.
+Lemma jwt_bearer_client_sok w cr : sok (jwt_bearer_client w cr).
+Proof.
+  unfold jwt_bearer_client. apply saves_ok_bind; [apply authenticated_sok|]. intros [c|]; [exact I|]. destruct (andb _ _); exact I.
+Qed.
+Lemma jwt_bearer_grant_sok w n now r : sok (jwt_bearer_grant w n now r).
+Proof.
+  unfold jwt_bearer_grant. repeat (break_goal; [exact I|]).
+  apply saves_ok_bind; [apply jwt_bearer_client_sok|]; intros oc; destruct oc as [c|]; [|exact I]. sv.
+Qed.
 Lemma ciba_grant_sok w n now r : sok (ciba_grant w n now r).
 Proof. unfold ciba_grant. repeat (break_goal; [exact I|]). sv_auth. sv. Qed.
 Lemma authenticate_sok w n now s pol : sok (authenticate w n now s pol).
@@ -840,7 +875,7 @@ Proof.
   - apply continue_auth_sok.
   - apply push_auth_sok.
   - apply cc_grant_sok. - apply code_grant_sok. - apply refresh_grant_sok.
-  - exact I. - exact I.
+  - exact I. - apply jwt_bearer_grant_sok.
   - apply ciba_grant_sok.
   - apply introspect_sok.
   - apply revoke_sok.
